@@ -223,6 +223,25 @@ def lookalike(rng, v):
     return v
 
 
+def omissions(v, limit=6, depth=0):
+    """values obtained from v by removing ONE member of one object (any depth up to 3), first the shallow ones:
+    aimed at `required` (in whichever form it is stored or emitted) and at placeholders for omitted members"""
+    out = []
+    if depth > 3:
+        return out
+    if isinstance(v, dict):
+        for k in v:
+            out.append({a: b for a, b in v.items() if a != k})
+        for k in v:
+            for sub in omissions(v[k], limit, depth + 1):
+                out.append({**v, k: sub})
+    elif isinstance(v, list):
+        for i, x in enumerate(v[:4]):
+            for sub in omissions(x, limit, depth + 1):
+                out.append(v[:i] + [sub] + v[i + 1:])
+    return out[:limit]
+
+
 def random_value(rng, depth=0):
     return gen_literal(rng, depth)
 
